@@ -174,16 +174,34 @@ def _boundaries(packets):
         yield pos
 
 
-def run_one(kind, stream, cuts, idle_steps, settings, cb):
+def run_one(kind, stream, cuts, idle_steps, settings, cb, split_at=None):
+    """split_at: byte offset (a packet boundary) at which the gateway drops the link; the rest of the stream arrives
+    on the connection the client opens next."""
     async def scenario(sim):
         sim.spawn("connect")
         await asyncio.sleep(0.05)
         if not sim.conns:
             return
         conn = sim.conns[0]
-        base_written = len(conn.written)
         pos = 0
         for c in cuts + [len(stream)]:
+            if split_at is not None and pos < split_at <= c and conn is sim.conns[0]:
+                if split_at > pos:
+                    conn.feed(stream[pos:split_at])
+                    pos = split_at
+                await asyncio.sleep(0.5)          # what was sent so far is read before the link goes
+                if kind == "waveshare":
+                    conn.reset(simgw.serial_loss_exception())
+                else:
+                    conn.feed_eof()
+                for _ in range(6000):
+                    if len(sim.conns) > 1:
+                        break
+                    await asyncio.sleep(0.01)
+                if len(sim.conns) < 2:
+                    return
+                await asyncio.sleep(0.05)
+                conn = sim.conns[-1]
             if c > pos:
                 conn.feed(stream[pos:c])
                 pos = c
@@ -262,6 +280,19 @@ def run_shard(spec, acc):
             sim, stats = run_one(kind, stream, cuts, idle, settings, cb)
             inside = any(c not in bset for c in cuts)
             judge(sim, stats, want, acc, kind, label, cuts, settings, cb, stream, undel, inside)
+        if rep % 2 == 0:
+            # the link drops at a packet boundary in the middle of the stream (possibly inside a fast-packet message);
+            # the rest arrives on the next connection: same decoder, same expected deliveries
+            bl = sorted(bset)
+            split = bl[len(bl) // 2 + rng.randint(-3, 3)] if len(bl) > 8 else None
+            if split is not None and split < len(stream):
+                cuts = sorted(rng.sample(range(1, len(stream)), min(20, len(stream) - 1)))
+                sim, stats = run_one(kind, stream, cuts, 1, settings, cb, split_at=split)
+                if sim is not None and len(sim.conns) >= 2:
+                    acc.count("sessions_continued_on_second_connection")
+                    judge(sim, stats, want, acc, kind, "continued_after_reconnect", cuts, settings, cb, stream, undel, True)
+                else:
+                    acc.count("second_connection_not_opened")
 
 
 def judge(sim, stats, want, acc, kind, label, cuts, settings, cb, stream, undel, inside):
